@@ -211,6 +211,10 @@ class SymEnv:
         """Conditions under which the executed code stored a NaN/inf (see core.ite); must be proved unreachable or assumed away"""
         return [SB(g) for g, v in self.ctx.nonfinite]
 
+    def check_reachable(self, name):
+        """Explicit vacuity guard at this point of the body"""
+        return self.ctx.reachable(name)
+
     def raised(self, exname=None):
         """Symbolic condition under which a declared exception was raised at merge points so far"""
         cs = [rc for (_, en, rc) in self.ctx.raise_conds if exname is None or en == exname]
@@ -330,6 +334,9 @@ class ConcEnv:
     def nonfinite_guards(self):
         return []
 
+    def check_reachable(self, name):
+        return None
+
     def raised(self, exname=None):
         return False
 
@@ -337,7 +344,7 @@ class ConcEnv:
         self.notes[k] = v
 
 
-def run_body(body, name, tier, seed, functions=(), bounds=None, stubs=(), timeout_ms=60000, declared_exceptions=(), known_keys=(), max_paths=20000, replay_witnesses=True, feasibility=True):
+def run_body(body, name, tier, seed, functions=(), bounds=None, stubs=(), timeout_ms=60000, declared_exceptions=(), known_keys=(), max_paths=20000, replay_witnesses=True, feasibility=True, final_reach=True):
     """
     Explore `body(env)` symbolically over all paths; replay witnesses and counterexamples concretely.
 
@@ -363,9 +370,10 @@ def run_body(body, name, tier, seed, functions=(), bounds=None, stubs=(), timeou
         env = SymEnv(ctx, tier, on_claim=on_claim)
         ctx.merge_exceptions = tuple(declared_exceptions)
         body(env)
-        w = ctx.reachable("path-reachable")
-        if w.status == "sat":
-            witness_models.append((w.model, ok_names))
+        if final_reach:
+            w = ctx.reachable("path-reachable")
+            if w.status == "sat":
+                witness_models.append((w.model, ok_names))
         return True
 
     st = explore(fn, timeout_ms=timeout_ms, seed=seed, max_paths=max_paths, feasibility=feasibility)
